@@ -73,7 +73,8 @@ macro_rules! enc_binary_lat {
 enc_unary_full!(c03_q_enc_neg, U::Neg, |a| -a);
 enc_unary_full!(c03_q_enc_abs, U::Abs, |a| a.abs());
 enc_unary_full!(c03_q_enc_not, U::Not, |a| a.not());
-enc_unary_full!(c03_q_enc_rand, U::Rand, |a| a.rand());
+enc_unary_full!(c03_t_enc_rand, U::Rand, |a| a.rand());
+enc_unary_lat!(c03_q_enc_rand_lat, 31, 0, U::Rand, |a| a.rand());
 enc_unary_full!(c03_q_enc_floor, U::Floor, |a| a.floor());
 enc_unary_full!(c03_q_enc_ceil, U::Ceil, |a| a.ceil());
 enc_unary_full!(c03_q_enc_round, U::Round, |a| a.round());
@@ -82,7 +83,8 @@ enc_binary_full!(c03_q_enc_max, B::Max, |a, b| a.max_choice(b).0);
 enc_binary_full!(c03_q_enc_and, B::And, |a, b| a.and_choice(b).0);
 enc_binary_full!(c03_q_enc_or, B::Or, |a, b| a.or_choice(b).0);
 enc_binary_full!(c03_q_enc_compare, B::Compare, |a, b| Interval::compare(a, b));
-enc_binary_full!(c03_q_enc_mix, B::Mix, |a, b| a.mix(b));
+enc_binary_full!(c03_t_enc_mix, B::Mix, |a, b| a.mix(b));
+enc_binary_lat!(c03_q_enc_mix_lat, 15, 0, B::Mix, |a, b| a.mix(b));
 
 // ---- full width under monotone contract stubs ------------------------------
 enc_unary_full!(c03_q_enc_sqrt, U::Sqrt, |a| a.sqrt());
@@ -95,8 +97,10 @@ enc_unary_full!(c03_q_enc_acos, U::Acos, |a| a.acos());
 // ---- lattice: enclosure through a rounded arithmetic operation -------------
 enc_binary_lat!(c03_q_enc_add, 31, 0, B::Add, |a, b| a + b);
 enc_binary_lat!(c03_q_enc_sub, 31, 0, B::Sub, |a, b| a - b);
-enc_binary_lat!(c03_q_enc_mul, 15, 0, B::Mul, |a, b| a * b);
-enc_binary_lat!(c03_q_enc_div, 15, 0, B::Div, |a, b| a / b);
+enc_binary_lat!(c03_q_enc_mul, 7, 0, B::Mul, |a, b| a * b);
+enc_binary_lat!(c03_t_enc_mul_k15, 15, 0, B::Mul, |a, b| a * b);
+enc_binary_lat!(c03_q_enc_div, 7, 0, B::Div, |a, b| a / b);
+enc_binary_lat!(c03_t_enc_div_k15, 15, 0, B::Div, |a, b| a / b);
 enc_unary_lat!(c03_q_enc_square, 31, 0, U::Square, |a| a.square());
 enc_unary_lat!(c03_q_enc_recip, 31, 0, U::Recip, |a| a.recip());
 
